@@ -142,6 +142,16 @@ theorem C16_digits_nearest_decision_sound (P : ℕ) (x : ℚ) (y : Dec)
     IsNearestDec P x y :=
   nearestDecB_sound P x y hs h
 
+/-- The decision procedure of the model for "nearest finite binary64 value" (compare with the two
+neighbouring binary64 values; zero below the least subnormal, `2^1024` above the largest finite
+value) is sound for every `y ≠ 0` and value of the sign of `y`: no other finite binary64 value,
+of any binade or sign, and not zero, is closer.  The harness runs this procedure on every pair
+(token printed, value read back) of the real export/import. -/
+theorem C16_digits_nearest_bin_decision_sound (y : ℚ) (x : B64)
+    (hs : (0 < y ∧ x.neg = false) ∨ (y < 0 ∧ x.neg = true)) (h : nearestBinB y x = true) :
+    IsNearestBin y x :=
+  nearestBinB_sound y x hs h
+
 /-- **Connection to the round-trip theorems.**  Let values `α` be finite doubles seen through
 `bin` (`none` for a zero, else the sign/mantissa/exponent triple) and `sgn` (the sign bit), which
 together determine the value; let tokens `τ` be seen through `dec` (`none` for a zero token
@@ -193,22 +203,41 @@ theorem C16_digits_discharges_hypothesis {α τ : Type} (fmt : α → τ) (parse
       rw [hp] at h; cases h
 
 /-- **16 digits are not enough.**  The double `0.1 + 0.2 = 5404319552844596·2^-54`
-(`0.30000000000000004`): its nearest 16-digit decimal is `3.000000000000000e-01`, and the double
-`0.3 = 5404319552844595·2^-54` is strictly closer to that decimal – so no nearest binary64 value
-of the printed token is the value written (`"%.15e"` would lose it). -/
+(`0.30000000000000004`): its nearest 16-digit decimal is `3.000000000000000e-01`, whose nearest
+binary64 value is the other double `0.3 = 5404319552844595·2^-54`, strictly closer to that
+decimal – so no nearest binary64 value of the printed token is the value written (`"%.15e"`
+would lose it). -/
 theorem C16_digits_16_not_enough :
     let x : B64 := ⟨false, 5404319552844596, -54⟩
     let x2 : B64 := ⟨false, 5404319552844595, -54⟩
     let y : Dec := ⟨false, 3000000000000000, -16⟩
-    x.WF ∧ x2.WF ∧ IsNearestDec 16 x.toRat y ∧ dist y.toRat x2.toRat < dist y.toRat x.toRat ∧
-      ∀ x' : B64, IsNearestBin y.toRat x' → x' ≠ x := by
+    x.WF ∧ x2.WF ∧ IsNearestDec 16 x.toRat y ∧ IsNearestBin y.toRat x2 ∧
+      dist y.toRat x2.toRat < dist y.toRat x.toRat ∧ ∀ x' : B64, IsNearestBin y.toRat x' → x' ≠ x := by
   intro x x2 y
   have hx : x.WF := by decide
   have hx2 : x2.WF := by decide
   have hlt : dist y.toRat x2.toRat < dist y.toRat x.toRat := by
     rw [dist_eq, dist_eq, B64.toRat_eq, B64.toRat_eq, Dec.toRat_eq]
     norm_num [x, x2, y, bval, dval, abs_lt]
-  refine ⟨hx, hx2, ?_, hlt, ?_⟩
+  refine ⟨hx, hx2, ?_, ?_, hlt, ?_⟩
+  rotate_left
+  · refine nearestBinB_sound _ x2 (Or.inl ⟨?_, rfl⟩) ?_
+    · rw [Dec.toRat_eq]; exact dval_pos (P := 16) (by decide)
+    · have hu : x2.up = some ⟨false, 5404319552844596, -54⟩ := by
+        show B64.up ⟨false, 5404319552844595, -54⟩ = some ⟨false, 5404319552844596, -54⟩
+        decide
+      have hd : x2.down = some ⟨false, 5404319552844594, -54⟩ := by
+        show B64.down ⟨false, 5404319552844595, -54⟩ = some ⟨false, 5404319552844594, -54⟩
+        decide
+      unfold nearestBinB
+      rw [hu, hd]
+      simp only [Bool.and_eq_true, decide_eq_true_eq]
+      refine ⟨⟨hx2, ?_⟩, ?_⟩
+      · rw [dist_eq, dist_eq, B64.toRat_eq, B64.toRat_eq, Dec.toRat_eq]
+        norm_num [x2, y, bval, dval]
+      · rw [dist_eq, dist_eq, B64.toRat_eq, B64.toRat_eq, Dec.toRat_eq]
+        norm_num [x2, y, bval, dval]
+  rotate_left
   · refine nearestDecB_sound 16 _ y (Or.inl ⟨?_, rfl⟩) ?_
     · rw [B64.toRat_eq]; exact bval_pos hx
     · unfold nearestDecB
@@ -227,7 +256,7 @@ theorem C16_digits_16_not_enough :
 
 /-- `0.1 = 7205759403792794·2^-56` prints as `1.0000000000000001e-01`: that token is a nearest
 17-digit decimal of it (so by `C16_digits_self_nearest` both hypotheses of the theorem hold). -/
-example : (B64.mk false 7205759403792794 (-56)).WF ∧
+theorem C16_digits_tenth_witness : (B64.mk false 7205759403792794 (-56)).WF ∧
     IsNearestDec 17 (B64.mk false 7205759403792794 (-56)).toRat ⟨false, 10000000000000001, -17⟩ := by
   refine ⟨by decide, nearestDecB_sound 17 _ _ (Or.inl ⟨?_, rfl⟩) ?_⟩
   · rw [B64.toRat_eq]; exact bval_pos (show (B64.mk false 7205759403792794 (-56)).WF by decide)
@@ -238,6 +267,36 @@ example : (B64.mk false 7205759403792794 (-56)).WF ∧
       norm_num [Dec.up, bval, dval]
     · rw [dist_eq, dist_eq, B64.toRat_eq, Dec.toRat_eq, Dec.toRat_eq]
       norm_num [Dec.down, bval, dval]
+
+/-- The hypotheses of `C16_digits_discharges_hypothesis` are satisfiable by a world that holds
+both zeros and a nonzero value whose decimal is not exact: `fmt`/`parse` map `+0.0`, `-0.0`, `0.1`
+to the tokens `0.0…e+00`, `-0.0…e+00`, `1.0000000000000001e-01` and back. -/
+example :
+    let bin : DigitsDemo → Option B64 := fun a => match a with
+      | .tenth => some ⟨false, 7205759403792794, -56⟩ | _ => none
+    let sgn : DigitsDemo → Bool := fun a => match a with | .nz => true | _ => false
+    let dec : DigitsDemo → Option Dec := fun t => match t with
+      | .tenth => some ⟨false, 10000000000000001, -17⟩ | _ => none
+    (∀ a b, bin a = bin b → (bin a = none → sgn a = sgn b) → a = b) ∧
+    (∀ a x, bin a = some x → x.WF) ∧
+    (∀ a x, bin a = some x → ∃ y, dec (id a) = some y ∧ IsNearestDec 17 x.toRat y) ∧
+    (∀ a, bin a = none → dec (id a) = none ∧ sgn (id a) = sgn a) ∧
+    (∀ a y, dec (id a) = some y →
+      (∀ z : B64, z.WF → dist y.toRat (match bin (id (id a)) with | none => 0 | some b => b.toRat)
+          ≤ dist y.toRat z.toRat) ∧
+      dist y.toRat (match bin (id (id a)) with | none => 0 | some b => b.toRat) ≤ dist y.toRat 0) ∧
+    (∀ a, dec (id a) = none → bin (id (id a)) = none ∧ sgn (id (id a)) = sgn (id a)) := by
+  intro bin sgn dec
+  obtain ⟨hwf, hnear⟩ := C16_digits_tenth_witness
+  have hself := C16_digits_self_nearest _ hwf _ hnear
+  refine ⟨?_, ?_, ?_, ?_, ?_, ?_⟩
+  · intro a b; cases a <;> cases b <;> simp [bin, sgn]
+  · intro a x h; cases a <;> simp [bin] at h; subst h; exact hwf
+  · intro a x h; cases a <;> simp [bin] at h; subst h; exact ⟨_, rfl, hnear⟩
+  · intro a h; cases a <;> simp [bin] at h <;> simp [dec]
+  · intro a y h; cases a <;> simp [dec] at h; subst h
+    exact ⟨hself.2.2, hself.2.1⟩
+  · intro a h; cases a <;> simp [dec] at h <;> simp [bin]
 
 /-- the least subnormal `2^-1074` and the largest finite value `(2^53−1)·2^971` are in range -/
 example : (B64.mk true 1 (-1074)).WF ∧ (B64.mk false (2 ^ 53 - 1) 971).WF ∧
